@@ -363,6 +363,9 @@ def rle_append_modify(rle, a_r) -> None:
     MODIFIES rle parameter contents. Returns None.
     """
     a, r = a_r
+    if not r:
+        # an empty run carries nothing (and would make rle_product() stop early)
+        return
     if not rle or rle[-1][0] != a:
         rle.append((a, r))
         return
